@@ -23,7 +23,9 @@
 (*   [g|->"struct", ty, v: Seq([name, emb, tag, val])]                     *)
 (*   [g|->"ptr", nil, v | to]             to = name of the pointee type    *)
 (*   [g|->"iface", nil, v]                an interface{} variable          *)
-(*   [g|->"marshaler", ty, a]             a value with a MarshalValue      *)
+(*   [g|->"marshaler", ty, a]             a value of a type with a         *)
+(*                                        MarshalValue method; the type    *)
+(*                                        fixes the receiver kind (RecvOf) *)
 (*   [g|->"value", v]                     already a data.Value             *)
 (* Fields the conversion does not depend on (typed, et, to, kind of a      *)
 (* float, ...) only tell the harness which concrete Go type to build.      *)
@@ -37,7 +39,7 @@ EXTENDS SoyValues
 CONSTANT Dev    \* set of deviation names; {} is the reference design
 
 DevNames == {"nan_truthy", "eq_asymmetric_int_float", "struct_field_uppercase",
-             "typed_nil_not_null", "text_map_order"}
+             "typed_nil_not_null", "text_map_order", "marshaler_checked_after_deref"}
 
 -----------------------------------------------------------------------------
 (* Extended Soy values and their laws                                      *)
@@ -229,11 +231,52 @@ Key(f, o) == IF o.lc /\ "struct_field_uppercase" \notin Dev THEN LowerFirst(f.na
 
 \* what the custom marshalers of the harness return (written like the
 \* pinned testIDURLMarshaler: keys chosen by the type, not by lowerCamel)
+\* Marshaler types of the harness.  value receiver: idurl mint mnull mlist
+\* many;  POINTER receiver (func (m *T) MarshalValue()): pmoney pint pany.
+\* many / pany return whatever data.Value they hold (a.v), GoNil = the nil
+\* interface included.
+PtrRecvTypes == {"pmoney", "pint", "pany"}
+RecvOf(ty) == IF ty \in PtrRecvTypes THEN "ptr" ELSE "value"
+GoNil == [t |-> "gonil"]          \* MarshalValue returned nil (not a Soy value)
+
 MarshalResult(m) ==
   CASE m.ty = "idurl"  -> M(("id" :> I(m.a.id)) @@ ("url" :> S(m.a.url)))
     [] m.ty = "mint"   -> S("int:" \o ToString(m.a.n))      \* marshaler on a non-struct type
     [] m.ty = "mnull"  -> Null
     [] m.ty = "mlist"  -> L(<<I(m.a.n), S("x")>>)
+    [] m.ty = "pmoney" -> M(("amount" :> I(m.a.cents)) @@ ("code" :> S(m.a.cur)))
+    [] m.ty = "pint"   -> S("pint:" \o ToString(m.a.n))
+    [] m.ty \in {"many", "pany"} -> m.a.v
+
+\* a pointer-receiver marshaler type seen WITHOUT its marshaler (a value of
+\* type T does not implement the interface, only *T does): its plain shape
+PlainOf(m) ==
+  CASE m.ty = "pmoney" -> [g |-> "struct", ty |-> "PMoney",
+                           v |-> <<[name |-> "Cents", emb |-> FALSE, tag |-> "", val |-> [g |-> "int", kind |-> "int64", v |-> m.a.cents]],
+                                   [name |-> "Currency", emb |-> FALSE, tag |-> "", val |-> [g |-> "str", v |-> m.a.cur]]>>]
+    [] m.ty = "pint"   -> [g |-> "int", kind |-> "int", v |-> m.a.n]
+    [] m.ty = "pany"   -> [g |-> "struct", ty |-> "PAny",
+                           v |-> <<[name |-> "V", emb |-> FALSE, tag |-> "",
+                                    val |-> IF m.a.v = GoNil THEN [g |-> "nil"] ELSE [g |-> "value", v |-> m.a.v]]>>]
+
+\* THE RULE (doc of data.Marshaler: "entities that can marshal themselves";
+\* the code: if a value implements Marshaler its MarshalValue is used, at
+\* every level of indirection).  MV(g, addr) = the marshaler whose
+\* MarshalValue is in the METHOD SET of g (addr = FALSE) or of a pointer to g
+\* (addr = TRUE), by Go's rules: T has the value-receiver methods, *T has
+\* both; a struct embedding T gets T's methods promoted (the pointer-receiver
+\* ones only on the pointer to the struct), a struct embedding *T gets both.
+NoMV == [g |-> "none"]
+EmbMV(x, addr) ==
+  IF x.g = "marshaler" THEN (IF RecvOf(x.ty) = "value" \/ addr THEN x ELSE NoMV)
+  ELSE IF x.g = "ptr" /\ ~x.nil /\ x.v.g = "marshaler" THEN x.v
+  ELSE NoMV
+MV(g, addr) ==
+  CASE g.g = "marshaler" -> IF RecvOf(g.ty) = "value" \/ addr THEN g ELSE NoMV
+    [] g.g = "struct" ->
+         LET c == {i \in 1..Len(g.v) : g.v[i].emb /\ EmbMV(g.v[i].val, addr) # NoMV} IN
+         IF Cardinality(c) = 1 THEN EmbMV(g.v[CHOOSE i \in c : TRUE].val, addr) ELSE NoMV
+    [] OTHER -> NoMV
 
 \* Readings: where neither the tests nor the statement decide, a consistent
 \* implementation may choose; an observation is accepted if it is the
@@ -245,8 +288,19 @@ MarshalResult(m) ==
 \* with a nil map[string]interface{} as data - features_test.go
 \* runFeatureTests, Tofu.Render(d(nil)) - so a nil map must convert to a
 \* map, like the pinned nil slice -> empty list.)
-Rd0 == [emb |-> "nest"]
-AllReadings == [emb : {"nest", "flat"}]
+\*   pr  : a pointer-receiver marshaler type met BY VALUE (T, []T, a field
+\*         of type T) does not implement the interface: "strict" converts it
+\*         as the plain value (the rule read literally, what the code does);
+\*         "addr" uses its address like encoding/json does for addressable
+\*         values.  Through a pointer (*T, **T, []*T ...) there is no choice.
+\*   nilres : MarshalValue returned nil: the nil interface as is ("nil") or
+\*         null.
+Rd0 == [emb |-> "nest", pr |-> "strict", nilres |-> "nil"]
+AllReadings == [emb : {"nest", "flat"}, pr : {"strict", "addr"}, nilres : {"nil", "null"}]
+
+ResultOf(m, rd) == LET r == MarshalResult(m) IN IF r = GoNil /\ rd.nilres = "null" THEN Null ELSE r
+\* the deviation: drill through all pointers first, ask the final VALUE only
+AddrOK == "marshaler_checked_after_deref" \notin Dev
 
 IsStructLike(g) == g.g = "struct" \/ (g.g = "ptr" /\ ~g.nil /\ g.v.g = "struct")
 
@@ -261,11 +315,15 @@ Convert(g, o, rd) ==
     [] g.g \in {"slice", "array"} -> L([i \in 1..Len(g.v) |-> Convert(g.v[i], o, rd)])
     [] g.g = "map" ->
          IF g.nil THEN M(EmptyFn) ELSE M([k \in DOMAIN g.v |-> Convert(g.v[k], o, rd)])
-    [] g.g = "struct" -> M(StructMap(g.v, o, rd))
+    [] g.g = "struct" ->
+         LET m == MV(g, rd.pr = "addr") IN
+         IF m # NoMV THEN ResultOf(m, rd) ELSE M(StructMap(g.v, o, rd))
     [] g.g \in {"ptr", "iface"} ->
          IF g.nil THEN (IF "typed_nil_not_null" \in Dev /\ g.g = "ptr" THEN Undef ELSE Null)
-         ELSE Convert(g.v, o, rd)
-    [] g.g = "marshaler" -> MarshalResult(g)
+         ELSE LET m == IF g.g = "ptr" THEN MV(g.v, AddrOK \/ rd.pr = "addr") ELSE NoMV IN
+              IF m # NoMV THEN ResultOf(m, rd) ELSE Convert(g.v, o, rd)
+    [] g.g = "marshaler" ->
+         IF RecvOf(g.ty) = "value" \/ rd.pr = "addr" THEN ResultOf(g, rd) ELSE Convert(PlainOf(g), o, rd)
     [] g.g = "value" -> g.v
 
 \* the fields of a struct as a map
@@ -286,7 +344,7 @@ Promoted(fs, i, o, rd) ==
                    ELSE <<>>
        IN here @@ Promoted(fs, i + 1, o, rd)
 
-RECURSIVE HasEmb(_), HasTime(_), HasArray(_), Depth(_)
+RECURSIVE HasEmb(_), HasTime(_), HasArray(_), HasPR(_), HasNilRes(_), Depth(_)
 Kids(g) ==
   CASE g.g \in {"slice", "array"} -> {g.v[i] : i \in 1..Len(g.v)}
     [] g.g = "map" -> {g.v[k] : k \in DOMAIN g.v}
@@ -296,11 +354,16 @@ Kids(g) ==
 HasEmb(g) == (g.g = "struct" /\ \E i \in 1..Len(g.v) : g.v[i].emb) \/ \E k \in Kids(g) : HasEmb(k)
 HasTime(g) == g.g = "time" \/ \E k \in Kids(g) : HasTime(k)
 HasArray(g) == g.g = "array" \/ \E k \in Kids(g) : HasArray(k)
+HasPR(g) == (g.g = "marshaler" /\ RecvOf(g.ty) = "ptr") \/ \E k \in Kids(g) : HasPR(k)
+HasNilRes(g) == (g.g = "marshaler" /\ g.ty \in {"many", "pany"} /\ g.a.v = GoNil) \/ \E k \in Kids(g) : HasNilRes(k)
 Depth(g) == IF Kids(g) = {} THEN 0
             ELSE LET ds == {Depth(k) : k \in Kids(g)} IN
                  (CHOOSE d \in ds : \A e \in ds : e <= d) + (IF g.g = "iface" THEN 0 ELSE 1)
 
-ReadingsFor(g) == [emb : IF HasEmb(g) THEN {"nest", "flat"} ELSE {"nest"}]
+ReadingsFor(g) == [emb : IF HasEmb(g) THEN {"nest", "flat"} ELSE {"nest"},
+                   pr : IF HasPR(g) THEN {"strict", "addr"} ELSE {"strict"},
+                   nilres : IF HasNilRes(g) THEN {"nil", "null"} ELSE {"nil"}]
+Unambiguous(g) == ~HasEmb(g) /\ ~HasPR(g) /\ ~HasNilRes(g)
 
 Acceptable(g, o) == {Convert(g, o, rd) : rd \in ReadingsFor(g)}
 Accept(g, o, obs) == obs \in Acceptable(g, o)
@@ -328,14 +391,39 @@ Faithful(g, v, o) ==
          /\ v.t = "map" /\ DOMAIN v.v = DOMAIN g.v
          /\ \A k \in DOMAIN g.v : Faithful(g.v[k], v.v[k], o)
     [] g.g = "struct" ->
-         LET ex == {i \in 1..Len(g.v) : Exported(g.v[i].name)} IN
-         /\ v.t = "map" /\ DOMAIN v.v = {KeyLaw(g.v[i], o) : i \in ex}
-         /\ \A i \in ex : Faithful(g.v[i].val, v.v[KeyLaw(g.v[i], o)], o)
-    [] g.g \in {"ptr", "iface"} -> IF g.nil THEN v = Null ELSE Faithful(g.v, v, o)
-    [] g.g = "marshaler" -> v = MarshalResult(g)
+         IF MV(g, FALSE) # NoMV THEN v = MarshalResult(MV(g, FALSE))
+         ELSE LET ex == {i \in 1..Len(g.v) : Exported(g.v[i].name)} IN
+              /\ v.t = "map" /\ DOMAIN v.v = {KeyLaw(g.v[i], o) : i \in ex}
+              /\ \A i \in ex : Faithful(g.v[i].val, v.v[KeyLaw(g.v[i], o)], o)
+    [] g.g \in {"ptr", "iface"} ->
+         IF g.nil THEN v = Null
+         ELSE IF g.g = "ptr" /\ MV(g.v, TRUE) # NoMV THEN v = MarshalResult(MV(g.v, TRUE))
+         ELSE Faithful(g.v, v, o)
+    [] g.g = "marshaler" ->
+         IF RecvOf(g.ty) = "value" THEN v = MarshalResult(g) ELSE Faithful(PlainOf(g), v, o)
     [] g.g = "value" -> v = g.v
 
 FaithfulLaw(g, o) == Faithful(g, Convert(g, o, Rd0), o)
+
+\* whatever implements Marshaler - the value, or the pointer through which
+\* it is reached - is converted by its MarshalValue, wherever it sits
+RECURSIVE UsesMarshaler(_, _)
+UsesMarshaler(g, v) ==
+  CASE g.g = "ptr" /\ ~g.nil ->
+         IF MV(g.v, TRUE) # NoMV THEN v = MarshalResult(MV(g.v, TRUE)) ELSE UsesMarshaler(g.v, v)
+    [] g.g = "iface" /\ ~g.nil -> UsesMarshaler(g.v, v)
+    [] g.g = "marshaler" -> RecvOf(g.ty) = "value" => v = MarshalResult(g)
+    [] g.g = "struct" ->
+         IF MV(g, FALSE) # NoMV THEN v = MarshalResult(MV(g, FALSE))
+         ELSE v.t = "map" /\ \A i \in 1..Len(g.v) :
+                (Exported(g.v[i].name) /\ KeyLaw(g.v[i], [lc |-> TRUE]) \in DOMAIN v.v)
+                   => UsesMarshaler(g.v[i].val, v.v[KeyLaw(g.v[i], [lc |-> TRUE])])
+    [] g.g \in {"slice", "array"} ->
+         v.t = "list" /\ Len(v.v) = Len(g.v) /\ \A i \in 1..Len(g.v) : UsesMarshaler(g.v[i], v.v[i])
+    [] g.g = "map" /\ ~g.nil ->
+         v.t = "map" /\ \A k \in DOMAIN g.v \cap DOMAIN v.v : UsesMarshaler(g.v[k], v.v[k])
+    [] OTHER -> TRUE
+MarshalerLaw(g, o) == o.lc => UsesMarshaler(g, Convert(g, o, Rd0))
 
 \* converting a converted value changes nothing, under any options
 IdempotentLaw(g, o) ==
@@ -358,7 +446,8 @@ NilLaw(g, o) == \A rd \in ReadingsFor(g) : NoUndefFromNil(g, Convert(g, o, rd))
 \* case letter (holds under both readings of embedding)
 RECURSIVE LowerKeys(_, _)
 LowerKeys(g, v) ==
-  CASE g.g = "struct" ->
+  CASE g.g = "struct" /\ MV(g, TRUE) # NoMV -> TRUE      \* (possibly) marshals itself: keys are its own
+    [] g.g = "struct" ->
          /\ v.t = "map" /\ \A k \in DOMAIN v.v : ~StartsUpper(k)
          /\ \A i \in 1..Len(g.v) :
               LET k == LowerFirst(g.v[i].name) IN
@@ -366,6 +455,7 @@ LowerKeys(g, v) ==
     [] g.g \in {"slice", "array"} ->
          v.t = "list" /\ Len(v.v) = Len(g.v) /\ \A i \in 1..Len(g.v) : LowerKeys(g.v[i], v.v[i])
     [] g.g = "map" /\ ~g.nil /\ v.t = "map" -> \A k \in DOMAIN g.v \cap DOMAIN v.v : LowerKeys(g.v[k], v.v[k])
+    [] g.g = "ptr" /\ ~g.nil /\ MV(g.v, TRUE) # NoMV -> TRUE
     [] g.g \in {"ptr", "iface"} /\ ~g.nil -> LowerKeys(g.v, v)
     [] OTHER -> TRUE
 LowerCamelLaw(g, o) == o.lc => \A rd \in ReadingsFor(g) : LowerKeys(g, Convert(g, o, rd))
@@ -394,6 +484,12 @@ RECURSIVE InDomain(_)
 InDomain(g) ==
   /\ g.g = "ptr" /\ ~g.nil => /\ g.v.g # "value"
                               /\ ~(g.v.g = "iface" /\ ~g.v.nil /\ g.v.v.g = "value")
+  \* embedded marshalers: at most one, and not through a nil pointer (Go
+  \* would promote the method and then fail inside the call)
+  /\ g.g = "struct" =>
+       /\ Cardinality({i \in 1..Len(g.v) : g.v[i].emb /\ EmbMV(g.v[i].val, TRUE) # NoMV}) <= 1
+       /\ \A i \in 1..Len(g.v) : g.v[i].emb => ~(g.v[i].val.g = "ptr" /\ g.v[i].val.nil /\ Len(g.v[i].val.to) > 10
+                                              /\ SubSeq(g.v[i].val.to, 1, 10) = "marshaler:")
   /\ \A k \in Kids(g) : InDomain(k)
 
 -----------------------------------------------------------------------------
@@ -510,7 +606,39 @@ R1(size) ==
 
 G2(size) == Cont(G1(size), R1(size))
 
-Pool(size) == Leaves \cup G1(size) \cup G2(size)
+
+\* The marshaler family: every Marshaler implementation of the harness
+\* (receiver kind value / pointer; struct and non-struct types; every kind of
+\* result, nil included) x every way of reaching it (bare T, *T, **T, nil *T,
+\* an interface{} variable holding T or *T, element of []interface{} / []T /
+\* []*T / array, map value, struct field of type T / *T / interface{},
+\* pointer to such a struct, embedded by value / by pointer in a struct met
+\* by value / through a pointer).
+ResultKinds == {Undef, Null, B(TRUE), I(5), F(5, 1), NaN, S(""), S("x"), L(<<I(1)>>), M("a" :> Null), GoNil}
+Marshalers ==
+  MarshalerLeaves
+  \cup {GMarshaler("pmoney", [cents |-> 1250, cur |-> "EUR"]), GMarshaler("pint", [n |-> 7])}
+  \cup {GMarshaler(ty, [v |-> x]) : ty \in {"many", "pany"}, x \in ResultKinds}
+NilOf(m) == GNilPtr("marshaler:" \o m.ty)
+Reach(m) ==
+  {m, GPtr(m), GPtr(GPtr(m)), GPtr(GPtr(GPtr(m))), NilOf(m), GPtr(NilOf(m)),
+   GPtr(GIface(m)), GPtr(GIface(GPtr(m))),
+   GSlice(<<m>>), GSliceT(<<m, m>>), GSlice(<<GPtr(m), GNil>>), GSliceT(<<GPtr(m), NilOf(m)>>), GArray(<<GPtr(m)>>),
+   GMap("k" :> m), GMap("k" :> GPtr(m)), GMapT("Key" :> GPtr(m)), GMapT("Key" :> m),
+   GStruct("", <<Fld("A", m)>>), GStruct("", <<Fld("A", GPtr(m))>>), GStruct("", <<Fld("Price", GIface(GPtr(m)))>>),
+   GPtr(GStruct("", <<Fld("A", m), Fld("B", GPtr(m))>>))}
+EmbShapes ==
+  LET idurl == GMarshaler("idurl", [id |-> 1, url |-> "u"])
+      pm == GMarshaler("pmoney", [cents |-> 1250, cur |-> "EUR"]) IN
+  UNION {{GStruct("OuterMV", <<FldEmb("MIDURL", idurl), Fld("Y", y)>>),
+          GStruct("OuterPM", <<FldEmb("PMoney", pm), Fld("Y", y)>>),
+          GStruct("OuterPMP", <<FldEmb("PMoney", GPtr(pm)), Fld("Y", y)>>)} : y \in {GNil, GInt("int", 1)}}
+MarshalerFamily ==
+  UNION {Reach(m) : m \in Marshalers}
+  \cup UNION {{e, GPtr(e), GPtr(GPtr(e)), GSlice(<<GPtr(e), e>>), GMap("k" :> GPtr(e)),
+               GStruct("", <<Fld("A", e), Fld("B", GPtr(e))>>)} : e \in EmbShapes}
+
+Pool(size) == Leaves \cup G1(size) \cup G2(size) \cup MarshalerFamily
 
 \* the same pool cut into parts (one TLC process each)
 PoolPart(size, part) ==
@@ -519,7 +647,8 @@ PoolPart(size, part) ==
     [] part = 2 -> {GSlice(<<x>>) : x \in G1(size)} \cup {GSliceT(<<x>>) : x \in G1(size)}
     [] part = 3 -> {GMap("k" :> x) : x \in G1(size)} \cup {GMapT("Key" :> x) : x \in G1(size)}
     [] part = 4 -> ContB(R1(size))
-Parts == 0..4
+    [] part = 5 -> MarshalerFamily
+Parts == 0..5
 
 \* Go values whose conversions feed the pair laws (depth <= 1; arrays left
 \* out: the real converter rejects them).  GValue(Undef) is a leaf, so
